@@ -761,6 +761,7 @@ std::vector<Scenario> scenarios_for(const std::string& prop, int tier) {
             v.push_back(mk("R-111", {RUN(), PUB(1, 1), PUB(1, 2), PUB(1, 3)}, tier ? 3 : 2));
             v.push_back(mk("R-212", {RUN(), PUB(2, 1), PUB(1, 2), PUB(2, 3)}, tier ? 3 : 2));
             if (rmv < 3) v.push_back(mk("R-12121", {RUN(), PUB(1, 1), PUB(2, 2), PUB(1, 3), PUB(2, 4), PUB(1, 5)}, tier ? 2 : 1));
+            { auto s = mk("R-failing-puback-111", {RUN(), PUB(1, 1), PUB(1, 2), PUB(1, 3)}, 2); s.broker.puback_rc = 0x87; v.push_back(s); }
             { auto s = mk("R-failing-pubrec-22", {RUN(), PUB(2, 1), PUB(2, 2), PUB(1, 3)}, tier ? 3 : 2); s.broker.pubrec_rc = 0x80; v.push_back(s); }
             // per-operation cancellation of each publish at any point (injected)
             for (int victim = 1; victim <= 3; ++victim) { auto s = mk("R-cancel-op" + std::to_string(victim), {RUN(), slot(PUB(1, 1)), slot(PUB(2, 2)), slot(PUB(1, 3))}, 2);
